@@ -18,7 +18,7 @@ var verifRoot = "/verif"
 func newExec(l *Loaded) (*Exec, error) {
 	x := &Exec{w: NewWorld(), prog: l.prog, fset: l.fset, trivial: map[string]int{}, typeTags: map[string]int64{},
 		ordinals: map[*ssa.Function]map[ssa.Instruction]string{}, loops: map[*ssa.Function]*LoopInfo{},
-		errClass: map[string]int64{}, extUsed: map[string]bool{}, maxPaths: 4000}
+		errClass: map[string]int64{}, heapDefs: map[string]heapDef{}, extUsed: map[string]bool{}, maxPaths: 4000}
 	cs, _, err := loadContracts(l.root, l.pkgPathOfDir)
 	if err != nil {
 		return nil, err
